@@ -87,7 +87,7 @@ def apportionment(r, res, st, sname, ds, k, j):
     the window, in proportion to their end-of-window holdings (computed here from the implementation's own rows:
     an affiliate's balance after its last row settling up to 30 days after the sale)"""
     s_day = ds[k]["sd"]
-    if any(d["act"] == "Split" and s_day < d["sd"] <= s_day + 30 for d in ds):
+    if any(d["act"] == "Split" and d["sd"] <= s_day + 30 for d in ds[k + 1:]):      # also a split settling on the sale's own day, after it
         st["apportionment-skipped-split-after-sale"] += 1
         return
     hold, buyers = {}, set()
@@ -132,6 +132,8 @@ def run(res, ctx):
     n = 1500 if tier == "quick" else 40000
     done = 0
     first = True
+    bst = {"st": collections.Counter(), "diffs": []}
+    residual_bound_corpus(res, ctx, bst)
     while done < n:
         cases = []
         if first:
@@ -180,7 +182,9 @@ def run(res, ctx):
                 inits[sec] = (core.D(rng.randint(0, 50)), core.D(rng.randint(0, 100000), 2))
             cases.append({"rows": rows, "inits": inits})
         done += len(cases)
-        for r in corecheck.run_cases(ctx, cases, render=True):
+        batch = corecheck.run_cases(ctx, cases, render=True)
+        residual_bound_pass(res, ctx, batch, bst)
+        for r in batch:
             st["evaluations"] += 1
             # "flagged by the report as potentially over-applied": the [1] marker and its legend
             rstat, probs = renderoracle.check_run(r, groups=("over", "acb"))
@@ -228,6 +232,7 @@ def run(res, ctx):
         "max_abs_residual": float(maxres),
         "traces_validated_against_impl": st["evaluations"],
     })
+    residual_bound_report(res, bst)
     res.assumptions += ["under rust_decimal rounding the identity holds up to rounding noise; the residual is measured (max_abs_residual), the exact identity is the theorem"]
 
 
@@ -235,6 +240,165 @@ def replay(res, ctx, path):
     def judge(r):
         c = corecheck._Collect()
         conservation(r, c, collections.Counter())
+        residual_bound_pass(c, ctx, [r], {"st": collections.Counter(), "diffs": []})
         stat, probs = renderoracle.check_run(r, groups=("over", "acb")) if r["hc"].get("render") else ("skip", [])
         return c.msgs + ([m for _, m in probs] if stat == "ok" else [])
     return corecheck.replay(res, ctx, path, judge=judge)
+
+
+# ---- the PROVED bound on the residual under rounding (C03_dec_residual_bound, coq/Proofs/C03Dec.v;
+# class and per-row constant from entry 2 of the extraction group "dectransfer",
+# coq/Exec/CodecDecTransfer.v run_errclass, as lib/props/c01.py bound_pass) ----
+def _cC(k, cR):
+    """per-checkpoint constant cC k = cR k + 10^k u(k+1) + u(2k+2) = 3.15e-(26-2k); C03_dec_residual_constant
+    proves cC k = (63/52) cR k for k = 0..13: computed from the EXTRACTED cR k, cross-checked with the closed form"""
+    c = cR * Fraction(63, 52)
+    return c, c == Fraction(315, 100) * Fraction(10) ** (2 * k - 26)
+
+
+def _residuals(ds, opening, qs=None):
+    """|gains - (proceeds - (costs + opening) + RoC + cost base held)| after each of the rows ds, from the
+    rows' own figures (qs: the input quantities of the rows when ds does not carry them)"""
+    acb = {}
+    if opening is not None:
+        acb[1000] = opening
+    opening = opening or ZERO
+    gains = proceeds = costs = roc = ZERO
+    out = []
+    for k, d in enumerate(ds):
+        q = [Fraction(x) if isinstance(x, str) else x for x in ((qs[k] if qs is not None else d["q"]) or [])]
+        a = d["act"]
+        if a == "Buy":
+            costs += q[0] * q[1] * q[3] + q[2] * q[4]
+        elif a == "Sell":
+            proceeds += q[0] * q[1] * q[3] - q[2] * q[4]
+            gains += d["gain"] if d["gain"] is not None else ZERO
+        elif a == "RoC":
+            roc += q[0] * d["pre"][0] * q[1]
+        if d["post"][2] is not None:
+            acb[d["af"]] = d["post"][2]
+        out.append(gains - (proceeds - (costs + opening) + roc + sum(acb.values(), ZERO)))
+    return out
+
+
+def residual_bound_pass(res, ctx, rs, bst, expect=None):
+    """every case through entry 2 of the dectransfer group: per security the smallest k with in_class k
+    (rounded rows, exact rows) and cR k.  Inside the class C03_dec_residual_bound bounds the residual of the
+    conservation equation after the first n rows of the ROUNDED ledger by n * cC k: the IMPLEMENTATION's
+    residual at every checkpoint must lie within that PROVED bound (instead of the generic 1e-9), and so must
+    the extracted rounded model's (the theorem re-checked on the extracted code)"""
+    from common import run_model
+    from props.c01 import parse_errclass
+    st = bst["st"]
+    enc = [core.to_ints(r["case"], 1)[0] for r in rs]
+    outs = [parse_errclass(o) for o in run_model([[2] + e[1:] for e in enc], group="dectransfer")]
+    for r, pr in zip(rs, outs):
+        st["evaluations"] += 1
+        if pr is None:
+            st["entry2_failed"] += 1
+            continue
+        got = {}
+        hit = False
+        for s, (k, c, rows) in pr.items():
+            got[s] = (k, len(rows))
+            if k < 0 or not rows:
+                continue
+            cc, same = _cC(k, c)
+            if not same:
+                bst["diffs"].append((r["hc"], "cC %d computed from the extracted cR (%s) differs from 3.15e-(26-2k)" % (k, c)))
+                continue
+            sname = corecheck.sec_name(r, s)
+            init = r["case"].get("inits", {}).get(sname)
+            opening = init[1][1] if init else None
+            iso = r["impl"]["secs"].get(s) if r["impl"]["status"] == "ok" else None
+            if iso is None:
+                continue
+            ids = iso["deltas"][:len(rows)]
+            if any(d["act"] == "SfLA" for d in ids):
+                bst["diffs"].append((r["hc"], "security %s is in the class (k=%d) but the implementation reports an adjustment row" % (sname, k)))
+                continue
+            hit = True
+            st["securities"] += 1
+            st["k=%d" % k] += 1
+            for n_, x in enumerate(_residuals(ids, opening), 1):
+                b = n_ * cc
+                st["checkpoints"] += 1
+                if x != 0:
+                    st["checkpoints_with_nonzero_residual"] += 1
+                bst["max_ratio"] = max(bst.get("max_ratio", ZERO), abs(x) / b)
+                bst["max_bound"] = max(bst.get("max_bound", ZERO), b)
+                bst["max_residual"] = max(bst.get("max_residual", ZERO), abs(x))
+                if abs(x) > b:
+                    res.violation("failing-input",
+                                  "after row %d of %s: gains so far differ from proceeds - costs + RoC + cost base held by %s: "
+                                  "more than decimal rounding can cause on this history (proved bound %.3e = %d * cC %d)"
+                                  % (n_ - 1, sname, x, float(b), n_, k),
+                                  {"input": r["hc"], "row": n_ - 1, "actual_impl": str(x), "proved_bound": str(b),
+                                   "theorem": "C03_dec_residual_bound"})
+                    break
+            # the same on the extracted rounded model (input quantities taken from the implementation's rows)
+            mso = r["dec"]["secs"].get(s) if r["dec"].get("status") == "ok" else None
+            if mso is not None:
+                mds = mso["deltas"][:len(rows)]
+                if len(mds) <= len(ids) and all(m["act"] == i["act"] and m["af"] == i["af"] for m, i in zip(mds, ids)):
+                    for n_, x in enumerate(_residuals(mds, opening, [i["q"] for i in ids]), 1):
+                        st["model_checkpoints"] += 1
+                        if abs(x) > n_ * cc:
+                            bst["diffs"].append((r["hc"], "extracted rounded model: residual %s after row %d of %s exceeds %s"
+                                                 % (x, n_ - 1, sname, n_ * cc)))
+                            break
+        if hit:
+            st["cases"] += 1
+        if expect is not None and sorted(got.values()) != sorted(expect):
+            bst["diffs"].append((r["hc"], "corpus case: expected (k, rows) %s, entry 2 gives %s" % (expect, sorted(got.values()))))
+
+
+def residual_corpus_case():
+    """the Example C03_dec_residual_nonvacuous of coq/Properties/C03.v as a CSV case (two affiliates, per-share
+    costs 10/3 and 22/3: the rounded ledger's residual is not 0)"""
+    def row(day, act, af, sh=None, aps=None, com=None, split=None):
+        r = {"sec": "FOO", "td": core.BASE_DAY + day - 2, "sd": core.BASE_DAY + day, "act": act,
+             "cur": None, "rate": None, "af": af}
+        for key, v in (("sh", sh), ("aps", aps), ("com", com)):
+            if v is not None:
+                r[key] = (v, Fraction(v))
+        if split:
+            r["split"] = split
+        return r
+    return {"rows": [row(100, "Buy", "Default", "3", "3", "1"), row(150, "Buy", "Spouse", "3", "7", "1"),
+                     row(200, "Sell", "Default", "1", "5", "0"), row(300, "Buy", "Default", "2", "1", "0"),
+                     row(400, "RoC", "Default", aps="0.1"), row(500, "Sell", "Default", "2", "4", "0.5"),
+                     row(550, "Sell", "Spouse", "1", "9", "0"), row(600, "Split", "Default", split=("2", "1"))],
+            "inits": {}}
+
+
+def residual_bound_corpus(res, ctx, bst):
+    rs = corecheck.run_cases(ctx, [residual_corpus_case()])
+    before = bst["st"]["checkpoints_with_nonzero_residual"]
+    residual_bound_pass(res, ctx, rs, bst, expect=[(1, 8)])
+    bst["st"]["corpus_cases"] += 1
+    if rs[0]["impl"]["status"] == "ok" and bst["st"]["checkpoints_with_nonzero_residual"] == before and not bst["diffs"]:
+        bst["diffs"].append((rs[0]["hc"], "corpus case: the implementation's residual is 0 at every checkpoint (the rounded model's is not)"))
+
+
+def residual_bound_report(res, bst):
+    st = bst["st"]
+    if bst["diffs"] and not res.violations:
+        hc, d = bst["diffs"][0]
+        res.violation("broken-correspondence", "proved residual bound: " + d,
+                      {"theorem_or_projection": "C03_dec_residual_bound on the extracted code / class of entry 2 (dectransfer)",
+                       "input": hc, "difference": d, "differing_cases": len(bst["diffs"])}, found_input=False)
+    res.coverage["proved_residual_bound"] = {
+        "theorem": "C03_dec_residual_bound: |residual after n rows| <= n * cC k, cC k = 3.15e-(26-2k) = (63/52) cR k",
+        "cases_evaluated": st["evaluations"],
+        "cases_inside_class": st["cases"],
+        "securities_inside_class": st["securities"],
+        "checkpoints_checked_against_proved_bound": st["checkpoints"],
+        "checkpoints_with_nonzero_residual": st["checkpoints_with_nonzero_residual"],
+        "checkpoints_of_extracted_rounded_model": st["model_checkpoints"],
+        "k_histogram": {k_: v for k_, v in sorted(st.items()) if k_.startswith("k=")},
+        "largest_residual": float(bst.get("max_residual", ZERO)),
+        "largest_bound_applied": float(bst.get("max_bound", ZERO)),
+        "largest_residual_over_bound": float(bst.get("max_ratio", ZERO)),
+        "corpus_cases": st["corpus_cases"],
+    }
